@@ -74,3 +74,57 @@ Proof.
   - destruct e; try discriminate H. reflexivity.
 Qed.
 
+
+(* ------------------------------------------------------------------ *)
+(* small non-negative integers as doubles: accepted exactly (exhaustive below 2^16) *)
+
+Definition small_int_ok (i : N) : bool :=
+  let x := f_of_N i in
+  match try_to_usize_exact x with Some j => (j =? i)%N | None => false end
+  && negb (not_integer x) && negb (f_neg_p x) && (sat_cast usize_max x =? i)%N.
+
+Lemma small_int_all : all_range 0x10000 0 small_int_ok = true.
+Proof. vm_compute. reflexivity. Qed.
+
+Lemma small_int_exact i : (i < 0x10000)%N ->
+  try_to_usize_exact (f_of_N i) = Some i /\ not_integer (f_of_N i) = false /\
+  f_neg_p (f_of_N i) = false /\ sat_cast usize_max (f_of_N i) = i.
+Proof.
+  intros Hi. pose proof (all_range_spec _ _ _ small_int_all i ltac:(lia)) as H.
+  unfold small_int_ok in H.
+  apply andb_true_iff in H as [H H4]. apply andb_true_iff in H as [H H3]. apply andb_true_iff in H as [H1 H2].
+  apply N.eqb_eq in H4. apply negb_true_iff in H2, H3.
+  destruct (try_to_usize_exact (f_of_N i)) as [j|]; [|discriminate H1].
+  apply N.eqb_eq in H1. subst j. auto.
+Qed.
+
+(* s[i] for an index below 2^16 written as a number: the i-th code point *)
+Lemma index_small_is_nth s i : (i < 0x10000)%N ->
+  index_value (VStr s) (VNum (f_of_N i)) =
+    match nth_error s (N.to_nat i) with
+    | Some c => Ok (VStr [c])
+    | None => Err ENumericIndexOutOfRange
+    end.
+Proof.
+  intros Hi. destruct (small_int_exact i Hi) as [H _]. unfold index_value. rewrite H.
+  unfold nthN, lenN. destruct (N.of_nat (length s) <=? i)%N eqn:E.
+  - apply N.leb_le in E. replace (nth_error s (N.to_nat i)) with (@None N); [reflexivity|].
+    symmetry. apply nth_error_None. lia.
+  - destruct (nth_error s (N.to_nat i)); reflexivity.
+Qed.
+
+(* std.substr(s, a, l) for a, l below 2^16: drop a code points, keep l *)
+Lemma substr_small s a l : (a < 0x10000)%N -> (l < 0x10000)%N ->
+  std_substr (VStr s) (VNum (f_of_N a)) (VNum (f_of_N l)) =
+    Ok (VStr (firstn (N.to_nat l) (skipn (N.to_nat a) s))).
+Proof.
+  intros Ha Hl. destruct (small_int_exact a Ha) as (_ & A1 & A2 & A3).
+  destruct (small_int_exact l Hl) as (_ & L1 & L2 & L3).
+  unfold std_substr. cbn [want_str want_num obind]. rewrite A1, A2, L1, L2, A3, L3. cbn [orb].
+  unfold substr_cps, takeN, skipN, lenN. f_equal. f_equal.
+  destruct (N.of_nat (length s) <=? a)%N eqn:E1.
+  - apply N.leb_le in E1. rewrite (skipn_all2 s) by lia. cbn [length]. 
+    destruct (N.of_nat 0 <=? l)%N; [|reflexivity]. rewrite firstn_nil. reflexivity.
+  - destruct (N.of_nat (length (skipn (N.to_nat a) s)) <=? l)%N eqn:E2; [|reflexivity].
+    apply N.leb_le in E2. rewrite firstn_all2 by lia. reflexivity.
+Qed.
